@@ -15,7 +15,10 @@ theorem sm_encrypt_command_data (sk d : Bytes) (t : EncryptionType) :
     cases t <;> simp [throw, throwThe, MonadExceptOf.throw] <;> (try (repeat (first | rfl | split) <;> simp_all))
     -- fall-back for rewrites that compute "needs padding" first and pad afterwards
     all_goals (cases hp : pad2 d (some 8) <;> by_cases hm : d.length % 8 = 0 <;>
-      simp_all [zeros, List.replicate] <;> omega)
+      simp_all [zeros, List.replicate])
+    -- … and for rewrites that re-bind the data to its padded form inside the MasterCard branch and return once
+    all_goals (first | omega | (have hpos : 0 < d.length % 8 := by omega
+                                simp [hpos]))
   · simp [h, throw, throwThe, MonadExceptOf.throw]
 
 /-- **C07 about the translated source**: each scheme enciphers its documented frame -/
